@@ -4,7 +4,7 @@ import importlib
 # property -> list of (rule module, configs it needs in quick tier)
 PROPERTY_RULES = {
     "C01": ["r_a10", "r_a9", "r_a8", "r_a2", "r_o3"],
-    "C02": ["r_a6", "r_e1", "r_b1"],
+    "C02": ["r_a6", "r_a4", "r_a2", "r_o3", "r_e1", "r_b1"],
     "C03": ["r_a2", "r_a3"],
     "C04": ["r_a8", "r_e1", "r_a6"],
     "C05": ["r_b1", "r_o3", "r_a2"],
